@@ -51,6 +51,18 @@ def hand_built():
     d.delegation("ex:undeclared1", "ex:undeclared2")
     d.start("ex:a", None, "ex:starter")                             # second argument missing: no edge
     yield "shared-identifier+undeclared", d
+    # every relation kind as a self-loop on an identifier declared nowhere, followed by a second relation naming it
+    from prov.model import PROV_REC_CLS
+    for kind, cls in sorted(PROV_REC_CLS.items(), key=lambda kv: kv[0].uri):
+        if not issubclass(cls, ProvRelation) or len(cls.FORMAL_ATTRIBUTES) < 2:
+            continue
+        d = ProvDocument()
+        d.add_namespace("ex", "http://example.org/")
+        a1, a2 = cls.FORMAL_ATTRIBUTES[:2]
+        d.new_record(kind, None, {a1: "ex:ghost", a2: "ex:ghost"})
+        d.new_record(kind, "ex:second", {a1: "ex:ghost", a2: "ex:other"})
+        d.new_record(kind, None, {a1: "ex:other", a2: "ex:ghost"})
+        yield "undeclared-self-loop:" + kind.localpart, d
 
 
 def check(name, d):
@@ -147,7 +159,7 @@ def main():
             print("still failing:", f["what"])
         return 1 if bad else 0
     res = {"evaluations": n, "distinct": len(distinct), "samples": [cases[0][0], cases[3][0]],
-           "rule": "3 hand-built shapes + %d bundle-free generated documents of <= 7 records (C01 generator); oracle computed from unified()" % count,
+           "rule": "3 hand-built shapes + one undeclared self-loop shape per relation kind + %d bundle-free generated documents of <= 7 records (C01 generator); oracle computed from unified()" % count,
            "failures_found": len(failures), "failures": list(failures.values())}
     if a.out:
         json.dump(res, open(a.out, "w"), indent=1)
